@@ -13,7 +13,11 @@ def main():
         print("| %s | %d: %s |" % (os.path.basename(f)[:-5], len(m), ", ".join(x["name"] for x in m)))
     print()
     res = json.load(open(os.path.join(VERIF, "seeded", "results.json")))
-    print("| change | what it breaks (author's summary) | confirmed here | caught by |")
+    NOTES = {
+        "C09/d": "not reported: after repair `ee46eaa` this change no longer violates the property (its demo passes on the current tree)",
+        "C12/f": "the patch no longer applies after repair `962aeb8`, which it reverses in part; kept as planted mutants `path-response-before-ack` / `ack-after-path-challenge` (caught)",
+    }
+    print("| change | what it breaks (author's summary) | confirmed when planted | caught by (quick tier, seed 1) |")
     print("|---|---|---|---|")
     for key in sorted(res):
         pid, v = key.split("/")
@@ -27,7 +31,10 @@ def main():
         checks = res[key].get("checks", {})
         caught = [("%s (%s)" % (k, x["violations"][0].split(":")[0].replace("violation ", "")[:70]) if x.get("violations") else k) for k, x in sorted(checks.items()) if x.get("exit") == 1]
         missed = [k for k, x in sorted(checks.items()) if x.get("exit") == 0]
-        print("| %s | %s | %s | %s%s |" % (key, (meta.get("summary") or "")[:260].replace("|", "/"), c, "; ".join(caught) or "-", (" (missed by: %s)" % ", ".join(missed)) if missed and not caught else ""))
+        if key in NOTES:
+            print("| %s | %s | %s | %s |" % (key, (meta.get("summary") or "")[:200].replace("|", "/").replace("\n", " "), c, NOTES[key]))
+            continue
+        print("| %s | %s | %s | %s%s |" % (key, (meta.get("summary") or "")[:200].replace("|", "/").replace("\n", " "), c, "; ".join(caught) or "-", (" (missed by: %s)" % ", ".join(missed)) if missed and not caught else ""))
 
 
 main()
